@@ -32,6 +32,50 @@ def run(prog, tier):
 
     stores = {c: mcmc.derive_stores(prog, c) for c in mcmc.SAMPLERS}
 
+    # ------------------------------------------------------------ what is recorded is log-density / temperature
+    # every evaluation of the user's density that feeds a recorded log-probability (constructor and step of the four chain
+    # classes) carries the chain's inverse temperature exactly once, as a factor of the call itself
+    from .C01 import _arith_holder
+    for cname in ("MetropolisChain", "GibbsChain", "PcaChain", "HamiltonianChain"):
+        ci_ = prog.cls(cname)
+        if not prog.self_assignments(ci_, "inv_temp"):
+            continue
+        fns_ = [prog.find_method(ci_, "__init__")] + list(mcmc.step_functions(prog, cname))
+        bad_t, n_t = [], 0
+        for c_, fn_ in fns_:
+            if fn_ is None or c_.name not in ("MetropolisChain", "GibbsChain", "PcaChain", "HamiltonianChain"):
+                continue
+            for call in mcmc.posterior_calls(fn_):
+                n_t += 1
+                h_ = _arith_holder(fn_, call)
+                if str(U(h_)) not in (f"{U(call)} * self.inv_temp", f"self.inv_temp * {U(call)}"):
+                    bad_t.append(f"{c_.name}.{fn_.name} line {call.lineno}: `{U(h_)[:70]}`")
+        obs.append(struct_ob("stored-value-tempered", f"{ci_.module.name}.{cname}", not bad_t and n_t > 0,
+                             "a recorded log-probability must be posterior(x) * inv_temp: " + "; ".join(bad_t[:2]), ci_.module.relpath,
+                             ci_.node.lineno, slots={"posterior_calls": n_t}, tier="F"))
+    # the two walker arrays of the ensemble are one table: outside the constructor / loader neither is re-bound as a whole (a
+    # re-ordering or selection of the positions alone pairs every walker with another walker's log-probability)
+    ens_ = prog.cls("EnsembleSampler")
+    reb = []
+    for mname_, fn_ in ens_.methods.items():
+        if mname_ in ("__init__", "load"):
+            continue
+        for st_ in ast.walk(fn_):
+            if isinstance(st_, (ast.Assign, ast.AugAssign)):
+                for t_ in (st_.targets if isinstance(st_, ast.Assign) else [st_.target]):
+                    for el_ in (t_.elts if isinstance(t_, ast.Tuple) else [t_]):
+                        if isinstance(el_, ast.Attribute) and U(el_) in ("self.walker_positions", "self.walker_probs"):
+                            reb.append(f"{mname_} line {st_.lineno}: `{U(st_)[:80]}`")
+            if isinstance(st_, ast.Expr) and isinstance(st_.value, ast.Call) and isinstance(st_.value.func, ast.Attribute) \
+                    and st_.value.func.attr in ("sort", "shuffle", "resize") and U(st_.value.func.value) in ("self.walker_positions", "self.walker_probs"):
+                reb.append(f"{mname_} line {st_.lineno}: `{U(st_)[:80]}`")
+            if isinstance(st_, ast.Expr) and isinstance(st_.value, ast.Call) and U(st_.value.func).split(".")[-1] == "shuffle" and st_.value.args \
+                    and U(st_.value.args[0]) in ("self.walker_positions", "self.walker_probs"):
+                reb.append(f"{mname_} line {st_.lineno}: `{U(st_)[:80]}`")
+    obs.append(struct_ob("walker-pair", f"{ens_.module.name}.EnsembleSampler[arrays-kept-together]", not reb,
+                         "walker positions and walker log-probabilities are updated one walker at a time, together: " + "; ".join(reb[:2]),
+                         ens_.module.relpath, ens_.node.lineno, tier="F"))
+
     # ------------------------------------------------------------ pair-append + provenance
     for cname in ("MetropolisChain", "GibbsChain", "PcaChain", "HamiltonianChain"):
         ci = prog.cls(cname)
